@@ -359,7 +359,7 @@ MAINLOOP:
 				watchingFile = true
 			}
 		}
-		ws.updateDirWatches(oldResolvedCfgDir, filepath.Dir(resolvedCfgPath))
+		ws.updateDirWatches(cleanedPathDir, oldResolvedCfgDir, filepath.Dir(resolvedCfgPath))
 
 		switch t := parseErr.(type) {
 		case nil:
@@ -380,7 +380,7 @@ MAINLOOP:
 
 }
 
-func (ws *WatchingSource) updateDirWatches(oldResolvedCfgDir, resolvedCfgDir string) {
+func (ws *WatchingSource) updateDirWatches(cfgDir, oldResolvedCfgDir, resolvedCfgDir string) {
 	if oldResolvedCfgDir == resolvedCfgDir {
 		return
 	}
@@ -389,6 +389,11 @@ func (ws *WatchingSource) updateDirWatches(oldResolvedCfgDir, resolvedCfgDir str
 	if addErr := ws.watcher.Add(resolvedCfgDir); addErr != nil {
 		ws.logger.Printf("failed to add new watch for symlink-resolved directory: %q: %s",
 			resolvedCfgDir, addErr)
+		return
+	}
+	if oldResolvedCfgDir == cfgDir {
+		// never drop the watch on the directory of the config path
+		// itself: that's where a symlink gets replaced.
 		return
 	}
 	if removeErr := ws.watcher.Remove(oldResolvedCfgDir); removeErr != nil {
